@@ -259,6 +259,10 @@ cdef class ZOrderNNPS(NNPS):
 
         cdef int curr_num_particles = pa_wrapper.get_number_of_particles()
 
+        if curr_num_particles == 0:
+            # An empty array has no cells.
+            return curr_cid
+
         cdef double* xmin = self.xmin.data
 
         cdef int c_x, c_y, c_z
@@ -434,6 +438,9 @@ cdef class ZOrderNNPS(NNPS):
 
             for j in range(self.max_cid):
                 current_lengths[j] = 1
+
+            if num_particles == 0:
+                continue
 
             pid = current_pids[0]
             cid = current_cids[pid]
@@ -768,6 +775,9 @@ cdef class ExtendedZOrderNNPS(ZOrderNNPS):
             for j in range(self.max_cid):
                 current_lengths[j] = 1
                 current_hmax[j] = 0
+
+            if num_particles == 0:
+                continue
 
             pid = current_pids[0]
             cid = current_cids[pid]
